@@ -192,6 +192,29 @@ def lemma_at(relpath, line):
     return None
 
 
+def vo_closure(vo):
+    """all .vo files of the development that <vo> depends on (transitively, itself included), from coq_makefile's
+    dependency file"""
+    deps = {}
+    txt = open(os.path.join(COQ, ".Makefile.d")).read().replace("\\\n", " ")
+    for line in txt.splitlines():
+        if ":" not in line:
+            continue
+        lhs, rhs = line.split(":", 1)
+        tg = [t for t in lhs.split() if t.endswith(".vo")]
+        ds = [d for d in rhs.split() if d.endswith(".vo")]
+        for t in tg:
+            deps.setdefault(t, set()).update(ds)
+    seen, todo = [], [vo]
+    while todo:
+        v = todo.pop()
+        if v in seen:
+            continue
+        seen.append(v)
+        todo.extend(sorted(deps.get(v, ())))
+    return sorted(seen)
+
+
 def theorems_in(relpath):
     txt = open(os.path.join(COQ, relpath)).read()
     txt = re.sub(r"\(\*.*?\*\)", "", txt, flags=re.S)
@@ -348,18 +371,45 @@ class Check:
             return ok and ok3
 
     def coqchk(self, prop_file):
-        """independent re-check of the compiled property file and everything it depends on (thorough tier)"""
+        """independent re-check of the compiled property file and everything it depends on (thorough tier).
+
+        Default: one recursive coqchk run (the development AND the standard library files it loads).
+        When the closure contains the large computational proofs (TwoSymRowNN, RegionCertsOKNN: one
+        vm_compute each, which coqchk re-does with its own lazy machine, about a minute per file), every
+        library of the development in the closure is checked exactly once with -norec, 14 at a time; the
+        standard-library files are then loaded without being re-checked (stated in the evidence)."""
         lib = "Verif." + prop_file[:-2].replace("/", ".")
-        p = subprocess.run(["timeout", "1500", "coqchk", "-silent", "-o", "-Q", ".", "Verif", lib],
-                           cwd=COQ, capture_output=True, text=True)
-        out = p.stdout + p.stderr
-        if p.returncode != 0:
-            self.broken.append(("proof", "coqchk rejected " + lib + ": " + out[-400:]))
+        closure = vo_closure(prop_file + "o")
+        heavy = [v for v in closure if re.search(r"(TwoSymRow|RegionCertsOK)\d+\.vo$", v)]
+        if not heavy:
+            p = subprocess.run(["timeout", "3000", "coqchk", "-silent", "-o", "-Q", ".", "Verif", lib],
+                               cwd=COQ, capture_output=True, text=True)
+            outs = [(lib, p.returncode, p.stdout + p.stderr)]
+            mode = "recursive (development and the standard library files it loads)"
+        else:
+            from concurrent.futures import ThreadPoolExecutor
+            libs = ["Verif." + v[:-3].replace("/", ".") for v in closure]
+
+            def one(l):
+                q = subprocess.run(["timeout", "3000", "coqchk", "-silent", "-o", "-Q", ".", "Verif", "-norec", l],
+                                   cwd=COQ, capture_output=True, text=True)
+                return (l, q.returncode, q.stdout + q.stderr)
+            with ThreadPoolExecutor(max_workers=14) as ex:
+                outs = list(ex.map(one, libs))
+            mode = (f"{len(libs)} libraries of the development each checked once with -norec in parallel "
+                    "(standard-library files loaded, not re-checked)")
+        bad = [(l, o) for l, rc, o in outs if rc != 0]
+        if bad:
+            self.broken.append(("proof", "coqchk rejected " + bad[0][0] + ": " + bad[0][1][-400:]))
             self.discharged = []
             return
-        ax = re.findall(r"^\s*([A-Za-z_][\w.]*\.[\w.']+)\s*$", out.split("* Axioms:")[-1], flags=re.M) if "* Axioms:" in out else []
+        ax = set()
+        for _, _, out in outs:
+            if "* Axioms:" in out:
+                ax.update(re.findall(r"^\s*([A-Za-z_][\w.]*\.[\w.']+)\s*$", out.split("* Axioms:")[-1], flags=re.M))
         self.notes.append("coqchk -o: ok")
-        self.trusted.append("coqchk -o re-checked " + lib + "; axioms it lists: " + (", ".join(sorted(set(ax))) or "<none>"))
+        self.trusted.append("coqchk -o re-checked " + lib + ", mode: " + mode + "; axioms it lists: " +
+                            (", ".join(sorted(ax)) or "<none>"))
 
     def count(self, stratum, case_key, nontrivial=True):
         self.cov["evaluations"] += 1
